@@ -96,6 +96,8 @@ PROPS["C01"] = dict(
         "Zrnt.Proofs.C01.M_block_refines_S_phase0",
         "Zrnt.Proofs.C01.processBlock_altair_eq",
         "Zrnt.Proofs.C01.M_block_refines_S_altair",
+        "Zrnt.Proofs.C01.processBlock_bellatrix_eq",
+        "Zrnt.Proofs.C01.M_block_refines_S_bellatrix",
         "Zrnt.Proofs.C01.ctx_frames",
         "Zrnt.Proofs.C01.sameCommittees_initiate",
     ],
@@ -125,7 +127,7 @@ PROPS["C01"] = dict(
         "(processBlock_noOps_eq), for phase0 blocks whose only operations are voluntary exits (processBlock_exits_eq), for phase0 blocks of proposer "
         "slashings + attester slashings + exits in any numbers (processBlock_slashExit_eq, counter-indexed invariant P0Inv) and for phase0 blocks of "
         "attestations (processBlock_attestations_eq), merged: ARBITRARY phase0 blocks without deposits (processBlock_phase0NoDeposits_eq), and EVERY phase0 block, deposits included "
-        "(processBlock_phase0_eq, M_block_refines_S_phase0; C03: M_sound_phase0) — for phase0 the premise OpSteps is gone; the same for EVERY altair block (processBlock_altair_eq, M_block_refines_S_altair; C03: M_sound_altair; invariant AltInv = P0DInv + participation lists, total active balance, the context's stake / effective balances / sync indices); open: bellatrix..deneb",
+        "(processBlock_phase0_eq, M_block_refines_S_phase0; C03: M_sound_phase0) — for phase0 the premise OpSteps is gone; the same for EVERY altair block (processBlock_altair_eq, M_block_refines_S_altair; C03: M_sound_altair; invariant AltInv = P0DInv + participation lists, total active balance, the context's stake / effective balances / sync indices) and for EVERY bellatrix block (processBlock_bellatrix_eq, M_block_refines_S_bellatrix, M_sound_bellatrix: the payload step writes the latest payload header only, the engine verdict is an input); open: capella, deneb",
         "simulation (Sim): whenever S accepts with a post-state or rejects with `invalid`, M gives the same, and M never panics; S's own overflow/fuel/"
         "oracle outcomes (S as an executable could not decide) constrain nothing — the operation theorems exclude them under their magnitude hypotheses",
         "composition hypothesis check_types: the block is a value of the SSZ block type (per-element limits zrnt enforces when decoding)",
